@@ -228,23 +228,79 @@ theorem findFirst_none_of_no_open : ∀ (s : Bytes), (123 : UInt8) ∉ s → fin
     have h' : (123 : UInt8) ∉ rest := fun hm => h (List.mem_cons_of_mem _ hm)
     simp [findFirst, tryHere_none_of_no_open (x :: rest) h, findFirst_none_of_no_open rest h']
 
+theorem findFirst_none : ∀ (s : Bytes), findFirst s = none → ∀ p q, s = p ++ q → tryHere q = none
+  | [], _, p, q, e => by
+    have : q = [] := (List.append_eq_nil_iff.mp e.symm).2
+    subst this; rfl
+  | x :: rest, h, p, q, e => by
+    simp only [findFirst] at h
+    cases ht : tryHere (x :: rest) with
+    | some t => simp [ht] at h
+    | none =>
+      simp only [ht] at h
+      cases hr : findFirst rest with
+      | some t => obtain ⟨a, b, c⟩ := t; simp [hr] at h
+      | none =>
+        cases p with
+        | nil => simp only [List.nil_append] at e; rw [← e]; exact ht
+        | cons y p' =>
+          simp only [List.cons_append, List.cons.injEq] at e
+          exact findFirst_none rest hr p' q e.2
+
 theorem findFirst_none_of_braceFree (s : Bytes) (h : braceFree s = true) : findFirst s = none :=
   findFirst_none_of_no_open s (braceFree_not_mem h).1
 
+/-! ### the callback: configured value if present, else the default -/
+
+theorem splitColon_key : ∀ (k : Bytes), (58 : UInt8) ∉ k → splitColon k = (k, none)
+  | [], _ => rfl
+  | x :: k, h => by
+    simp only [List.mem_cons, not_or] at h
+    have hx : x ≠ 58 := fun e => h.1 e.symm
+    simp [splitColon, hx, splitColon_key k h.2]
+
+theorem splitColon_key_default : ∀ (k d : Bytes), (58 : UInt8) ∉ k → splitColon (k ++ 58 :: d) = (k, some d)
+  | [], d, _ => by simp [splitColon]
+  | x :: k, d, h => by
+    simp only [List.mem_cons, not_or] at h
+    have hx : x ≠ 58 := fun e => h.1 e.symm
+    simp [splitColon, hx, splitColon_key_default k d h.2]
+
+theorem repl_present (cfg : Cfg) (content key : Bytes) (dflt : Option Bytes) (v : CVal)
+    (hs : splitColon content = (key, dflt)) (hg : get cfg key = .val (some v)) (hp : isAbsent (some v) = false) :
+    repl cfg content = .ok (format v) := by
+  simp only [repl, hs, hg, hp]
+  cases v <;> simp_all [formatOpt, isAbsent]
+
+theorem repl_absent (cfg : Cfg) (content key : Bytes) (dflt : Option Bytes) (v : Option CVal)
+    (hs : splitColon content = (key, dflt)) (hg : get cfg key = .val v) (ha : isAbsent v = true) :
+    repl cfg content = defaultAnswer dflt := by
+  simp only [repl, hs, hg, ha, if_true]
+
+/-- a default that is none of: true/false, number, map/slice literal, quoted -/
+def plainDefault (d : Bytes) : Bool :=
+  lower d != ofString "true" && lower d != ofString "false" && (parseNumber d).isNone &&
+    !isMapLike d && !isSliceLike d && !isQuoted d
+
+theorem normDefault_plain (d : Bytes) (h : plainDefault d = true) : normDefault d = .ok d := by
+  simp only [plainDefault, Bool.and_eq_true, bne_iff_ne, ne_eq, Option.isNone_iff_eq_none, Bool.not_eq_true'] at h
+  obtain ⟨⟨⟨⟨⟨h1, h2⟩, h3⟩, h4⟩, h5⟩, h6⟩ := h
+  simp [normDefault, h1, h2, h3, h4, h5, h6]
+
 /-! ### the loop -/
 
-theorem boundCond_false (bound : Option Nat) (round : Nat) (hb : ∀ b, bound = some b → round < b) :
-    (match bound with | some b => decide (round ≥ b) | none => false) = false := by
+theorem hitBound_false (bound : Option Nat) (round : Nat) (hb : ∀ b, bound = some b → round < b) :
+    hitBound bound round = false := by
   cases bound with
   | none => rfl
-  | some b => have := hb b rfl; simp; omega
+  | some b => have := hb b rfl; simp [hitBound]; omega
 
 /-- one round of ReplaceAllContent: the leftmost match is replaced in place -/
 theorem loopF_step (f : Bytes → StepRes) (bound : Option Nat) (fuel round : Nat) (s pre c post r : Bytes)
     (hf : findFirst s = some (pre, c, post)) (hb : ∀ b, bound = some b → round < b) (hr : f c = .ok r) :
     loopF f bound (fuel + 1) round s = loopF f bound fuel (round + 1) (pre ++ r ++ post) := by
   obtain ⟨e, bf, nm⟩ := findFirst_some s pre c post hf
-  have hc := boundCond_false bound round hb
+  have hc := hitBound_false bound round hb
   simp only [loopF, hf, hc, hr, Bool.false_eq_true, if_false]
   rw [e, replaceFirst_leftmost c r post bf pre nm]
 
@@ -264,12 +320,12 @@ theorem loopF_terminates (f : Bytes → StepRes) (b : Nat) :
       obtain ⟨pre, content, after⟩ := t
       simp only
       by_cases hb : round ≥ b
-      · simp [hb]
-      · simp only [hb, decide_false, Bool.false_eq_true, if_false]
+      · simp [hitBound, hb]
+      · simp only [hitBound, hb, decide_false, Bool.false_eq_true, if_false]
         cases hr : f content with
         | err => simp
         | panic => simp
-        | opaque => simp
+        | unmodelled => simp
         | ok r => simp only; exact ih (round + 1) _ (by omega) (by omega)
 
 theorem loopF_value_no_match (f : Bytes → StepRes) (bound : Option Nat) :
@@ -290,7 +346,7 @@ theorem loopF_value_no_match (f : Bytes → StepRes) (bound : Option Nat) :
       · cases hr : f content with
         | err => simp [hr] at h
         | panic => simp [hr] at h
-        | opaque => simp [hr] at h
+        | unmodelled => simp [hr] at h
         | ok x => simp only [hr] at h; exact ih _ _ _ h
 
 theorem count_zero_of_not_mem {s : Bytes} {x : UInt8} (h : x ∉ s) : s.count x = 0 :=
@@ -300,7 +356,7 @@ theorem count_open_step (pre c r post : Bytes) (bfc : braceFree c = true) (bfr :
     (pre ++ r ++ post).count 123 + 1 = (pre ++ matchText c ++ post).count 123 := by
   have h1 := count_zero_of_not_mem (braceFree_not_mem bfc).1
   have h2 := count_zero_of_not_mem (braceFree_not_mem bfr).1
-  simp [List.count_append, matchText, List.count_cons, h1, h2]
+  simp [List.count_append, matchText, h1, h2]
   omega
 
 /-- replacements without braces: every round removes one `{`, so the loop needs no bound -/
@@ -317,9 +373,9 @@ theorem loopF_safe (f : Bytes → StepRes) (hf : ∀ c r, braceFree c = true →
       obtain ⟨pre, c, post⟩ := t
       obtain ⟨e, bf, _⟩ := findFirst_some s pre c post hff
       cases hr : f c with
-      | err => simp [loopF, hff, hr]
-      | panic => simp [loopF, hff, hr]
-      | opaque => simp [loopF, hff, hr]
+      | err => simp [loopF, hff, hr, hitBound]
+      | panic => simp [loopF, hff, hr, hitBound]
+      | unmodelled => simp [loopF, hff, hr, hitBound]
       | ok r =>
         rw [loopF_step f none fuel round s pre c post r hff (by simp) hr]
         have := count_open_step pre c r post bf (hf c r bf hr)
@@ -342,12 +398,12 @@ theorem loopF_bound_irrelevant (f : Bytes → StepRes)
       obtain ⟨pre, c, post⟩ := t
       obtain ⟨e, bf, _⟩ := findFirst_some s pre c post hff
       have hpos : 0 < s.count 123 := by
-        rw [e]; simp [List.count_append, matchText, List.count_cons]; omega
+        rw [e]; simp [List.count_append, matchText]; omega
       have hlt : ¬ round ≥ b := by omega
       cases hr : f c with
-      | err => simp [loopF, hff, hr, hlt]
-      | panic => simp [loopF, hff, hr, hlt]
-      | opaque => simp [loopF, hff, hr, hlt]
+      | err => simp [loopF, hff, hr, hlt, hitBound]
+      | panic => simp [loopF, hff, hr, hlt, hitBound]
+      | unmodelled => simp [loopF, hff, hr, hlt, hitBound]
       | ok r =>
         rw [loopF_step f (some b) fuel round s pre c post r hff (by intro b' hb'; cases hb'; omega) hr,
             loopF_step f none fuel round s pre c post r hff (by simp) hr]
@@ -376,7 +432,7 @@ theorem self_errors (b : Nat) : ∀ (fuel round : Nat), round ≤ b → b - roun
   | succ fuel ih =>
     intro round h1 h2
     by_cases hb : round ≥ b
-    · simp [loopF, self_find, hb]
+    · simp [loopF, self_find, hb, hitBound]
     · rw [self_step (some b) fuel round (by intro b' hb'; cases hb'; omega)]
       exact ih (round + 1) (by omega) (by omega)
 
@@ -385,5 +441,356 @@ theorem self_diverges : ∀ (fuel round : Nat), loopF (repl selfCfg) none fuel r
   induction fuel with
   | zero => intro _; rfl
   | succ fuel ih => intro round; rw [self_step none fuel round (by simp)]; exact ih _
+
+/-! ### structured tags: the loop computes the inner-first substitution -/
+
+theorem evalF_spec (f : Bytes → StepRes) (bound : Option Nat) :
+    ∀ (t : Tag) (v : Bytes), evalF f t = some v →
+      braceFree v = true ∧
+      ∀ (l r : Bytes) (fuel round : Nat), (125 : UInt8) ∉ l → (∀ b, bound = some b → round + phCount t ≤ b) →
+        loopF f bound (fuel + phCount t) round (l ++ render t ++ r)
+          = loopF f bound fuel (round + phCount t) (l ++ v ++ r) := by
+  intro t
+  induction t with
+  | lit s =>
+    intro v h
+    simp only [evalF] at h
+    split at h
+    · rename_i hbf
+      simp only [Option.some.injEq] at h; subst h
+      exact ⟨hbf, by intro l r fuel round _ _; simp [render, phCount]⟩
+    · simp at h
+  | ph k ihk =>
+    intro v h
+    simp only [evalF] at h
+    cases hk : evalF f k with
+    | none => simp [hk] at h
+    | some kv =>
+      simp only [hk] at h
+      cases hr : f kv with
+      | err => simp [hr] at h
+      | panic => simp [hr] at h
+      | unmodelled => simp [hr] at h
+      | ok x =>
+        simp only [hr] at h
+        split at h
+        · rename_i hbf
+          simp only [Option.some.injEq] at h; subst h
+          obtain ⟨bfk, stepk⟩ := ihk kv hk
+          refine ⟨hbf, ?_⟩
+          intro l r fuel round hl hb
+          have e1 : l ++ render (.ph k) ++ r = (l ++ [36, 123]) ++ render k ++ (125 :: r) := by simp [render]
+          have hl' : (125 : UInt8) ∉ l ++ [36, 123] := by simp [hl]
+          have e2 : fuel + phCount (.ph k) = (fuel + 1) + phCount k := by simp [phCount]; omega
+          have hb1 : ∀ b, bound = some b → round + phCount k ≤ b := by
+            intro b hb'; have := hb b hb'; simp [phCount] at this; omega
+          rw [e1, e2, stepk (l ++ [36, 123]) (125 :: r) (fuel + 1) round hl' hb1]
+          have e3 : (l ++ [36, 123]) ++ kv ++ (125 :: r) = l ++ matchText kv ++ r := by simp [matchText]
+          have hb2 : ∀ b, bound = some b → round + phCount k < b := by
+            intro b hb'; have := hb b hb'; simp [phCount] at this; omega
+          rw [e3, loopF_step f bound fuel (round + phCount k) _ l kv r x (findFirst_skip kv r bfk l hl) hb2 hr]
+          simp [phCount, Nat.add_assoc]
+        · simp at h
+  | phd k d ihk ihd =>
+    intro v h
+    simp only [evalF] at h
+    cases hk : evalF f k with
+    | none => simp [hk] at h
+    | some kv =>
+      cases hd : evalF f d with
+      | none => simp [hk, hd] at h
+      | some dv =>
+        simp only [hk, hd] at h
+        cases hr : f (kv ++ 58 :: dv) with
+        | err => simp [hr] at h
+        | panic => simp [hr] at h
+        | unmodelled => simp [hr] at h
+        | ok x =>
+          simp only [hr] at h
+          split at h
+          · rename_i hbf
+            simp only [Option.some.injEq] at h; subst h
+            obtain ⟨bfk, stepk⟩ := ihk kv hk
+            obtain ⟨bfd, stepd⟩ := ihd dv hd
+            refine ⟨hbf, ?_⟩
+            intro l r fuel round hl hb
+            have hcnt : phCount (.phd k d) = phCount k + phCount d + 1 := rfl
+            have e1 : l ++ render (.phd k d) ++ r
+                = (l ++ [36, 123]) ++ render k ++ (58 :: (render d ++ 125 :: r)) := by simp [render]
+            have hl1 : (125 : UInt8) ∉ l ++ [36, 123] := by simp [hl]
+            have e2 : fuel + phCount (.phd k d) = (fuel + 1 + phCount d) + phCount k := by rw [hcnt]; omega
+            have hb1 : ∀ b, bound = some b → round + phCount k ≤ b := by
+              intro b hb'; have := hb b hb'; rw [hcnt] at this; omega
+            rw [e1, e2, stepk (l ++ [36, 123]) _ (fuel + 1 + phCount d) round hl1 hb1]
+            have e3 : (l ++ [36, 123]) ++ kv ++ (58 :: (render d ++ 125 :: r))
+                = (l ++ [36, 123] ++ kv ++ [58]) ++ render d ++ (125 :: r) := by simp
+            have hl2 : (125 : UInt8) ∉ l ++ [36, 123] ++ kv ++ [58] := by
+              simp [hl, (braceFree_not_mem bfk).2]
+            have hb2 : ∀ b, bound = some b → (round + phCount k) + phCount d ≤ b := by
+              intro b hb'; have := hb b hb'; rw [hcnt] at this; omega
+            rw [e3, stepd (l ++ [36, 123] ++ kv ++ [58]) (125 :: r) (fuel + 1) (round + phCount k) hl2 hb2]
+            have bfc : braceFree (kv ++ 58 :: dv) = true := by
+              rw [braceFree_append, braceFree_cons]; simp [bfk, bfd]
+            have e4 : (l ++ [36, 123] ++ kv ++ [58]) ++ dv ++ (125 :: r) = l ++ matchText (kv ++ 58 :: dv) ++ r := by
+              simp [matchText]
+            have hb3 : ∀ b, bound = some b → round + phCount k + phCount d < b := by
+              intro b hb'; have := hb b hb'; rw [hcnt] at this; omega
+            rw [e4, loopF_step f bound fuel (round + phCount k + phCount d) _ l (kv ++ 58 :: dv) r x
+                  (findFirst_skip _ r bfc l hl) hb3 hr]
+            simp [phCount, Nat.add_assoc]
+          · simp at h
+  | seq a b iha ihb =>
+    intro v h
+    simp only [evalF] at h
+    cases ha : evalF f a with
+    | none => simp [ha] at h
+    | some x =>
+      cases hb' : evalF f b with
+      | none => simp [ha, hb'] at h
+      | some y =>
+        simp only [ha, hb', Option.some.injEq] at h; subst h
+        obtain ⟨bfa, stepa⟩ := iha x ha
+        obtain ⟨bfb, stepb⟩ := ihb y hb'
+        refine ⟨by rw [braceFree_append]; simp [bfa, bfb], ?_⟩
+        intro l r fuel round hl hb
+        have hcnt : phCount (.seq a b) = phCount a + phCount b := rfl
+        have e1 : l ++ render (.seq a b) ++ r = l ++ render a ++ (render b ++ r) := by simp [render]
+        have e2 : fuel + phCount (.seq a b) = (fuel + phCount b) + phCount a := by rw [hcnt]; omega
+        have hb1 : ∀ c, bound = some c → round + phCount a ≤ c := by
+          intro c hc; have := hb c hc; rw [hcnt] at this; omega
+        rw [e1, e2, stepa l (render b ++ r) (fuel + phCount b) round hl hb1]
+        have e3 : l ++ x ++ (render b ++ r) = (l ++ x) ++ render b ++ r := by simp
+        have hl2 : (125 : UInt8) ∉ l ++ x := by simp [hl, (braceFree_not_mem bfa).2]
+        have hb2 : ∀ c, bound = some c → (round + phCount a) + phCount b ≤ c := by
+          intro c hc; have := hb c hc; rw [hcnt] at this; omega
+        rw [e3, stepb (l ++ x) r fuel (round + phCount a) hl2 hb2]
+        simp [phCount, Nat.add_assoc]
+
+/-- a structured tag resolves to its substitution value, provided the bound (if any) admits one round per placeholder -/
+theorem loopF_structured (f : Bytes → StepRes) (bound : Option Nat) (t : Tag) (v : Bytes)
+    (h : evalF f t = some v) (hb : ∀ b, bound = some b → phCount t ≤ b) (fuel : Nat) (hfuel : phCount t < fuel) :
+    loopF f bound fuel 0 (render t) = .value v := by
+  obtain ⟨bf, step⟩ := evalF_spec f bound t v h
+  have := step [] [] (fuel - phCount t) 0 (by simp) (by intro b hb'; have := hb b hb'; omega)
+  have e : fuel - phCount t + phCount t = fuel := by omega
+  simp only [List.nil_append, List.append_nil, e, Nat.zero_add] at this
+  rw [this]
+  obtain ⟨n, hn⟩ : ∃ n, fuel - phCount t = n + 1 := ⟨fuel - phCount t - 1, by omega⟩
+  rw [hn]
+  simp [loopF, findFirst_none_of_braceFree v bf]
+
+/-! ### the empty configuration is "safe": defaults of brace-free contents are brace-free -/
+
+/-- membership form of brace-freeness -/
+def BF (s : Bytes) : Prop := ∀ x ∈ s, x ≠ 123 ∧ x ≠ 125
+
+theorem bf_iff (s : Bytes) : braceFree s = true ↔ BF s := by
+  simp [braceFree, BF, List.all_eq_true]
+
+theorem BF_sub {s t : Bytes} (h : ∀ x ∈ t, x ∈ s) (hs : BF s) : BF t := fun x hx => hs x (h x hx)
+
+theorem BF_append {a b : Bytes} (ha : BF a) (hb : BF b) : BF (a ++ b) := by
+  intro x hx; rcases List.mem_append.mp hx with h | h
+  · exact ha x h
+  · exact hb x h
+
+theorem digit_ok : ∀ k, k < 10 → UInt8.ofNat (48 + k) ≠ 123 ∧ UInt8.ofNat (48 + k) ≠ 125 := by decide
+
+theorem natDigits_BF : ∀ fuel n, BF (natDigits fuel n)
+  | 0, _ => by simp [natDigits, BF]
+  | fuel + 1, n => by
+    simp only [natDigits]
+    split
+    · rename_i h; intro x hx; simp only [List.mem_singleton] at hx; subst hx; exact digit_ok n h
+    · apply BF_append (natDigits_BF fuel (n / 10))
+      intro x hx; simp only [List.mem_singleton] at hx; subst hx; exact digit_ok (n % 10) (Nat.mod_lt _ (by omega))
+
+theorem dropTrailingZeros_sub (ds : Bytes) : ∀ x ∈ dropTrailingZeros ds, x ∈ ds := by
+  intro x hx
+  simp only [dropTrailingZeros, List.mem_reverse] at hx
+  have := (List.dropWhile_sublist (fun c => decide (c = 48)) (l := ds.reverse)).subset hx
+  simpa using this
+
+theorem BF_lit {s : Bytes} (h : braceFree s = true) : BF s := (bf_iff s).mp h
+
+theorem BF_replicate (n : Nat) : BF (List.replicate n 48) := by
+  intro x hx; rw [List.mem_replicate] at hx; rw [hx.2]; decide
+
+theorem BF_cons {x : UInt8} {s : Bytes} (hx : x ≠ 123 ∧ x ≠ 125) (hs : BF s) : BF (x :: s) := by
+  intro y hy; rcases List.mem_cons.mp hy with rfl | h
+  · exact hx
+  · exact hs y h
+
+theorem fmtNumber_BF (neg : Bool) (ip fp r : Bytes) (hip : BF ip) (hfp : BF fp)
+    (h : fmtNumber neg ip fp = .ok r) : BF r := by
+  have hall : BF (ip ++ fp) := BF_append hip hfp
+  have hsig : BF (dropTrailingZeros ((ip ++ fp).drop ((ip ++ fp).takeWhile (· = 48)).length)) :=
+    BF_sub (fun x hx => List.mem_of_mem_drop (dropTrailingZeros_sub _ x hx)) hall
+  have hsign : BF (if neg = true then [45] else ([] : Bytes)) := by
+    cases neg <;> exact BF_lit (by decide)
+  unfold fmtNumber at h
+  dsimp only at h
+  generalize dropTrailingZeros ((ip ++ fp).drop ((ip ++ fp).takeWhile (· = 48)).length) = sig at h hsig
+  generalize (if neg = true then [45] else ([] : Bytes)) = sign at h hsign
+  split at h
+  · simp at h
+  · split at h
+    · simp only [StepRes.ok.injEq] at h; subst h
+      exact BF_append hsign (BF_lit (by decide))
+    · split at h
+      · simp at h
+      · split at h
+        · simp only [StepRes.ok.injEq] at h; subst h
+          refine BF_append (BF_append (BF_append hsign ?_) ?_) ?_
+          · cases sig with
+            | nil => exact BF_lit (by decide)
+            | cons d more =>
+              cases more with
+              | nil => exact hsig
+              | cons m ms =>
+                refine BF_cons (hsig d (by simp)) (BF_cons (by decide) ?_)
+                exact BF_sub (fun x hx => List.mem_cons_of_mem _ hx) hsig
+          · split <;> exact BF_lit (by decide)
+          · split
+            · exact BF_cons (by decide) (natDigits_BF _ _)
+            · exact natDigits_BF _ _
+        · split at h
+          · simp only [StepRes.ok.injEq] at h; subst h
+            exact BF_append (BF_append (BF_append hsign (BF_lit (by decide))) (BF_replicate _)) hsig
+          · split at h
+            · simp only [StepRes.ok.injEq] at h; subst h
+              exact BF_append (BF_append hsign hsig) (BF_replicate _)
+            · simp only [StepRes.ok.injEq] at h; subst h
+              refine BF_append (BF_append (BF_append hsign ?_) (BF_lit (by decide))) ?_
+              · exact BF_sub (fun x hx => List.mem_of_mem_take hx) hsig
+              · exact BF_sub (fun x hx => List.mem_of_mem_drop hx) hsig
+
+theorem isDigit_ok {x : UInt8} (h : isDigit x = true) : x ≠ 123 ∧ x ≠ 125 := by
+  simp only [isDigit, Bool.and_eq_true, decide_eq_true_eq] at h
+  constructor <;> (intro e; subst e; revert h; decide)
+
+theorem BF_of_digits {s : Bytes} (h : s.all isDigit = true) : BF s := by
+  intro x hx; exact isDigit_ok (List.all_eq_true.mp h x hx)
+
+theorem mem_takeWhile_imp' {p : UInt8 → Bool} : ∀ {l : Bytes} {x : UInt8}, x ∈ l.takeWhile p → p x = true
+  | [], _, h => by simp at h
+  | y :: l, x, h => by
+    simp only [List.takeWhile] at h
+    split at h
+    · rename_i hy
+      rcases List.mem_cons.mp h with rfl | h'
+      · exact hy
+      · exact mem_takeWhile_imp' h'
+    · simp at h
+
+theorem parseDigits_BF (body ip fp : Bytes) (h : parseDigits body = some (ip, fp)) : BF ip ∧ BF fp := by
+  unfold parseDigits at h
+  dsimp only at h
+  split at h
+  · simp at h
+  · split at h
+    · simp only [Option.some.injEq, Prod.mk.injEq] at h
+      obtain ⟨rfl, rfl⟩ := h
+      exact ⟨fun x hx => isDigit_ok (mem_takeWhile_imp' hx), by intro x hx; simp at hx⟩
+    · split at h
+      · rename_i hc
+        simp only [Option.some.injEq, Prod.mk.injEq] at h
+        obtain ⟨rfl, rfl⟩ := h
+        simp only [Bool.and_eq_true] at hc
+        exact ⟨fun x hx => isDigit_ok (mem_takeWhile_imp' hx), BF_of_digits hc.2⟩
+      · simp at h
+    · simp at h
+
+theorem parseNumber_BF (s : Bytes) (neg : Bool) (ip fp : Bytes) (h : parseNumber s = some (neg, ip, fp)) :
+    BF ip ∧ BF fp := by
+  have key : ∀ (b : Bool) (body : Bytes),
+      (parseDigits body).map (fun p => (b, p.1, p.2)) = some (neg, ip, fp) → BF ip ∧ BF fp := by
+    intro b body h
+    cases hp : parseDigits body with
+    | none => simp [hp] at h
+    | some p =>
+      obtain ⟨a, c⟩ := p
+      simp only [hp, Option.map_some, Option.some.injEq, Prod.mk.injEq] at h
+      obtain ⟨_, rfl, rfl⟩ := h
+      exact parseDigits_BF _ _ _ hp
+  unfold parseNumber at h
+  split at h
+  · exact key _ _ h
+  · exact key _ _ h
+  · exact key _ _ h
+
+theorem slice?_sub (s : Bytes) (lo hi : Int) (t : Bytes) (h : slice? s lo hi = some t) : ∀ x ∈ t, x ∈ s := by
+  unfold slice? at h
+  split at h
+  · simp only [Option.some.injEq] at h; subst h
+    intro x hx; exact List.mem_of_mem_drop (List.mem_of_mem_take hx)
+  · simp at h
+
+theorem normDefault_BF (d r : Bytes) (hd : BF d) (h : normDefault d = .ok r) : BF r := by
+  unfold normDefault at h
+  split at h
+  · simp only [StepRes.ok.injEq] at h; subst h; exact BF_lit (by decide)
+  · split at h
+    · simp only [StepRes.ok.injEq] at h; subst h; exact BF_lit (by decide)
+    · split at h
+      · rename_i neg ip fp hp
+        obtain ⟨h1, h2⟩ := parseNumber_BF d neg ip fp hp
+        exact fmtNumber_BF neg ip fp r h1 h2 h
+      · split at h
+        · simp at h
+        · split at h
+          · simp at h
+          · split at h
+            · split at h
+              · rename_i inner hs
+                simp only [StepRes.ok.injEq] at h; subst h
+                exact BF_sub (slice?_sub d _ _ _ hs) hd
+              · simp at h
+            · simp only [StepRes.ok.injEq] at h; subst h; exact hd
+
+theorem splitColon_BF : ∀ (c : Bytes), BF c → ∀ d, (splitColon c).2 = some d → BF d
+  | [], _, d, h => by simp [splitColon] at h
+  | x :: c, hc, d, h => by
+    have hc' : BF c := BF_sub (fun y hy => List.mem_cons_of_mem _ hy) hc
+    simp only [splitColon] at h
+    split at h
+    · simp only [Option.some.injEq] at h; subst h; exact hc'
+    · exact splitColon_BF c hc' d h
+
+theorem get_nil_absent (key : Bytes) : ∃ v, get [] key = .val v ∧ isAbsent v = true := by
+  unfold get
+  split
+  · exact ⟨_, rfl, rfl⟩
+  · cases hs : splitDots (lower key) with
+    | nil => exact ⟨some (.map []), by simp [search, nilToNone], rfl⟩
+    | cons p rest => exact ⟨none, by simp [search, searchMap], rfl⟩
+
+/-- the empty configuration: every placeholder is answered by its default, and the answer has no brace -/
+theorem repl_nil_safe (c r : Bytes) (hc : braceFree c = true) (h : repl [] c = .ok r) : braceFree r = true := by
+  rw [bf_iff] at hc ⊢
+  obtain ⟨v, hg, ha⟩ := get_nil_absent (splitColon c).1
+  have e : repl [] c = defaultAnswer (splitColon c).2 :=
+    repl_absent [] c (splitColon c).1 (splitColon c).2 v rfl hg ha
+  rw [e] at h
+  cases hd : (splitColon c).2 with
+  | none => simp only [hd, defaultAnswer, StepRes.ok.injEq] at h; subst h; intro x hx; simp at hx
+  | some d =>
+    simp only [hd, defaultAnswer] at h
+    split at h
+    · simp only [StepRes.ok.injEq] at h; subst h; intro x hx; simp at hx
+    · exact normDefault_BF d r (splitColon_BF c hc d hd) h
+
+/-! ### example data for the non-vacuity examples of C16 -/
+
+def exCfg : Cfg :=
+  [ (ofString "ab", .str (ofString "hit")), (ofString "p", .str (ofString "b")), (ofString "n", .num (ofString "42")),
+    (ofString "e", .map []), (ofString "el", .list []), (ofString "z", .null),
+    (ofString "m", .map [(ofString "k", .bool true)]) ]
+
+/-- `x${a${p}}-${zz:${n}}${e:dflt}${el}${m.k}`: nested key, nested default, empty map with default, empty list without -/
+def exTag : Tag :=
+  .seq (.lit (ofString "x")) (.seq (.ph (.seq (.lit (ofString "a")) (.ph (.lit (ofString "p")))))
+    (.seq (.lit (ofString "-")) (.seq (.phd (.lit (ofString "zz")) (.ph (.lit (ofString "n"))))
+      (.seq (.phd (.lit (ofString "e")) (.lit (ofString "dflt"))) (.seq (.ph (.lit (ofString "el"))) (.ph (.lit (ofString "m.k"))))))))
 
 end Ioc.Placeholder
